@@ -39,6 +39,19 @@ def retype(e, t, vtype, counter):
         return x
     return go(t)
 
+def tricky_family(f):
+    """quoting-sensitive text ahead of bound values: an alias ending in a backslash, an inlined constant and bound strings that hold placeholder marks, quotes and
+    backslashes, LIKE .. ESCAPE '\\' - a renderer that re-reads its own output (or mis-scans quoted text) loses track of the placeholders after them"""
+    C = lambda n: ['col', n]
+    calls = [['expr_as', C('tq'), 'al\\'], ['expr', ['const', V('String', "a?$1'b\\")]], ['from', ['t', 't']]]
+    if f.opt('like'): calls.append(['and_where', ['m', 'like', C('lk'), 'x?$1%', 0x5c]])
+    calls.append(['and_where', f.cmp()])
+    if f.opt('str'): calls.append(['and_where', ['bin', 'Equal', C('s'), ['val', V('String', "q'?$2\\")]]])
+    calls.append(['and_where', f.cmp()])
+    if f.opt('limit'):
+        n, v = f.val(64, 'BigUnsigned'); calls.append(['limit', v['v']])
+    return {'k': 'select', 'calls': calls}
+
 def elem_eq(a, b):
     """equality condition of two text elements (chars / opaque number tokens)"""
     ta = isinstance(a, tuple); tb = isinstance(b, tuple)
@@ -70,7 +83,10 @@ def entry_for(item, sampler, out):
     fam, backend, toggles, vtype = item
     def entry(e):
         sq = SQ(e)
-        st, f = build_family(e, fam, backend, toggles)
+        if fam == 'tricky':
+            from props.families import Fam
+            f = Fam(e, backend, toggles); st = tricky_family(f)
+        else: st, f = build_family(e, fam, backend, toggles)
         if vtype != 'Int': st = retype(e, st, vtype, [0])
         info = {'stmt': st}
         kind = st['k']
@@ -139,7 +155,13 @@ def run(ctx):
     nat = ctx.nat()
     from props.c01 import family_items
     items = []
-    for fam, b, tg in family_items(quick): items.append((fam, b, tg, 'Int'))
+    # C02 renders every path through seven entry points: it keeps the quick toggle groups of C01 in both tiers and adds two mid-size SELECT groups in the thorough tier
+    for fam, b, tg in family_items(True): items.append((fam, b, tg, 'Int'))
+    if not quick:
+        from props.families import SELECT_TOGGLES
+        for b in BACKENDS:
+            items.append(('select', b, tuple(SELECT_TOGGLES[:8]), 'Int')); items.append(('select', b, tuple(SELECT_TOGGLES[10:]), 'Int'))
+    for b in BACKENDS: items.append(('tricky', b, ('like', 'str', 'limit'), 'Int'))
     for b in BACKENDS:
         for vt in VTYPES[1:]:
             items.append(('update', b, ('set2', 'where'), vt))
